@@ -402,6 +402,34 @@ impl M {
                 fault_enum(&s.w, T, "propose-external-psk", false, false, &op, &yes, ctx);
                 let op = move |w: &mut World| w.key_package(T).map(|_| ());
                 fault_enum(&s.w, T, "generate-key-package", false, false, &op, &yes, ctx);
+                // an outsider joins by external commit (with and without an external PSK): the
+                // storage calls of ITS stores are failed; what it builds on the retry must be
+                // accepted by the members
+                // (shallow histories only: the joiner's storage calls do not depend on the members' past)
+                if let (Some(&o), true) = (s.w.outsiders().first(), ctx.path.len() <= 3) {
+                    for with_psk in [false, true] {
+                        let members = s.w.members();
+                        let op = move |w: &mut World| {
+                            let gi = w.g(T).group_info_message_allowing_ext_commit(true)?;
+                            let mut b = w.parties[o].client.external_commit_builder()?;
+                            if with_psk {
+                                b = b.with_external_psk(World::psk_id(0));
+                            }
+                            if let Some(t) = w.now() {
+                                b = b.commit_time(t);
+                            }
+                            let (g, msg) = b.build(gi)?;
+                            // the members' verdict is part of the operation's result
+                            for &p in &members {
+                                w.clone().process(p, &msg)?;
+                            }
+                            w.parties[o].group = Some(g);
+                            Ok(())
+                        };
+                        let label = if with_psk { "external-commit-with-psk(outsider)" } else { "external-commit(outsider)" };
+                        fault_enum(&s.w, o, label, false, self.pairs, &op, &yes, ctx);
+                    }
+                }
                 Step::Stop
             }
         }
